@@ -119,6 +119,11 @@ def shard_fn(shard, nshards, seed, tier, exe, ndocs, nenum):
             cmds.append("FDF x%s 0" % rng.choice([b"/nonexistent/dir/file.json", b"/nonexistent/" + b"d" * rng.choice([150, 190, 240, 400, 1000]) + b"/file.json"]).hex())
             plan.append(("nofile",))
         add(cmds, plan)
+    # ---- a FIFO whose writer is slower than the reader (json_object_from_file opens the path itself: the descriptor's mode is the library's choice) ----
+    for _ in range(2):
+        text, _v = dg.document()
+        if len(text) > 2 and b"\0" not in text:
+            add(["FIFO %d x%s" % (rng.choice([20, 60]), text.hex())], [("fifo",)])
     # ---- fault enumeration: one injected error at EVERY call index of small transfers ----
     for _ in range(max(1, nenum // nshards)):
         toks, _v = tg.tree()
@@ -181,6 +186,10 @@ def shard_fn(shard, nshards, seed, tier, exe, ndocs, nenum):
                     sh.count("write.error_injected")
             elif st[0] == "skip":
                 continue
+            elif st[0] == "fifo":
+                if f["obj"] != f["mem"] or f["eq"] != "1":
+                    key, what = "read-from-slow-fifo", "json_object_from_file on a FIFO with a lagging writer: %s (the same bytes parse from memory: %s)" % (ln, f["mem"])
+                sh.count("read.fifo_with_lagging_writer")
             elif st[0] == "wserfail":
                 rc, le, got = int(f["rc"]), int(f["lasterr"]), bytes.fromhex(f["got"][1:])
                 if rc != -1:
